@@ -13,6 +13,7 @@ PID = "C05"
 INF_T = 55.0
 HORIZON = 60.0
 RULE = (
+    "[plus a small 'cli_wiring' part: generated `taskiq worker` flag sets parsed by the real WorkerArgs.from_cli and turned into a receiver by the real start_listen(); --max-tasks-per-child / --wait-tasks-timeout reach the receiver unchanged] "
     "Hypothesis-generated shutdown scenarios: stop instant anywhere on the 0.05 s grid / around the 0.3 s poll grid "
     "(or no stop when max_tasks_to_execute=N decides), A in 1..3, P in 0..2, N in None|1..4, wait_tasks_timeout in "
     "None|0.5|2|5, 0-7 ackable messages with durations 0/0.05/0.3/1/4 s or never-ending (longer than the 60 s virtual "
@@ -156,3 +157,33 @@ def known(case: Dict[str, Any], v: Violation, out: Outcome) -> Optional[str]:
 
 
 SELFTEST_CASES = []
+
+
+
+# ---------------------------------------------------------------- CLI wiring: from worker flags to the receiver
+#
+# --max-tasks-per-child / --wait-tasks-timeout reach the receiver unchanged.  Flags are parsed with the real WorkerArgs.from_cli and the real start_listen() builds the receiver
+# (a recording subclass whose listen() returns at once).
+
+from vt.harness import cliwire as _cliwire
+
+_parts_core = parts
+_run_core = run_case
+
+
+def parts(tier: str) -> List[Part]:  # type: ignore[no-redef]
+    ps = _parts_core(tier)
+    ps.append(Part("cli_wiring", "given", shards=1, examples=1500 if tier == "thorough" else 150,
+                   strategy=lambda: _cliwire.FLAGS.map(lambda f: {"flags": f}), soft_deadline_s=300))
+    return ps
+
+
+def run_case(case: Dict[str, Any]) -> Outcome:  # type: ignore[no-redef]
+    if "flags" not in case:
+        return _run_core(case)
+    out = Outcome()
+    out.clauses_checked = ["C05.e"]
+    _cliwire.check(case["flags"], ['max_tasks_to_execute', 'wait_tasks_timeout'], "C05.e", out)
+    out.nontrivial = any(case["flags"].get(k) not in (None, False) for k in case["flags"])
+    out.classes = ["cli_wiring"]
+    return out
